@@ -4,6 +4,14 @@ import "time"
 
 // The registered harness runs per property.  Parameters are the stated bounds.
 var checks = map[string][]HarnessSpec{
+	"C06": {
+		{Name: "HarnessC06Node", Pkg: "leaf", Quick: map[string]int{"L": 2}, Thorough: map[string]int{"L": 3}},
+		{Name: "HarnessC06LiteralDefined", Pkg: "leaf", Quick: map[string]int{"L": 3}, Thorough: map[string]int{"L": 6}, PoolDirty: true},
+		{Name: "HarnessC06LiteralPair", Pkg: "leaf", Quick: map[string]int{"L": 2}, Thorough: map[string]int{"L": 3}},
+		{Name: "HarnessC06LiteralBoolText", Pkg: "leaf"},
+		{Name: "HarnessC06Predicate", Pkg: "leaf", Quick: map[string]int{"L": 2}, Thorough: map[string]int{"L": 3}},
+		{Name: "HarnessC06Triple", Pkg: "leaf"},
+	},
 	"C15": {
 		{Name: "HarnessC15Node", Pkg: "leaf", Quick: map[string]int{"N": 4}, Thorough: map[string]int{"N": 6}},
 		{Name: "HarnessC15Predicate", Pkg: "leaf", Quick: map[string]int{"N": 4}, Thorough: map[string]int{"N": 6}},
@@ -28,6 +36,7 @@ func assumptionsFor(prop string) []string {
 }
 
 var propAssumptions = map[string][]string{
+	"C06": {"SHA-1 truncated to a version-5 UUID is modelled as real SHA-1 on concrete input and as 16 uninterpreted byte functions per input length on symbolic input, with injectivity instantiated for every pair of applications on a path: no claim about SHA-1 collisions", "node text restricted to the documented domain (no whitespace, no <> in ids, type starts with / and does not end with /)", "temporal anchors: seconds from a concrete pool {0,1,1.6e9}, nanoseconds fully symbolic, three zones; float64 values from a concrete pool of 9 (compared by bit pattern)", "sync.Pool.Get may return a previously Put (dirty) buffer in HarnessC06LiteralDefined"},
 	"C15": {"time.Parse/Format are interpreted from the Go standard library source on the anchor text; re-print obligations are asserted for immutable predicates only", "float64 literals: accepted inputs are not re-printed (float formatting of symbolic values is outside the encoding)"},
 }
 
